@@ -60,4 +60,12 @@ impl TransportHook {
 /// Public wrapper for the crate-private frame parser (`network::parse_protocol_message`).
 pub fn parse_protocol_message(bytes: &[u8], source: &str) -> Option<crate::network::P2PEvent> {
     crate::network::parse_protocol_message(bytes, source)
+/// `DhtCoreEngine::new_with_validation_mode` is crate-private; the node itself
+/// (DhtNetworkManager::init_dht_core) builds its engine in LogOnly mode, which
+/// the harness needs in order to drive the same configuration.
+pub fn dht_core_engine_with_validation_mode(
+    node_id: crate::dht::core_engine::NodeId,
+    mode: crate::dht::routing_maintenance::close_group_validator::CloseGroupEnforcementMode,
+) -> anyhow::Result<crate::dht::core_engine::DhtCoreEngine> {
+    crate::dht::core_engine::DhtCoreEngine::new_with_validation_mode(node_id, mode)
 }
